@@ -103,6 +103,7 @@ func lexCorpus() []string {
 		"C{a;b=c}[1]", "C{a=b ; not a comment\n}[1]", "C[1]{a=b}; c\nD[1]", "123", "007[1]", "1٣[1]", "１[1]", "²[1]", "12ab[1]", "ab12[1]", "Cmaj7[1]", "Hm[1]", "c[1]", "r[1]",
 		"C\r\nD", "C D", "C D", "C\fD", "C\vD", "C\u0085D", "C​D", "C,D", "[1,1/2,1/4]", "//", "[[]]", "C♮[1]", "C##[1]", "Cbb[1]", "CbbB", "bb", "b", "#",
 		"C_;x\n7[1]", "C{;a\nb=c}[1]", "C{a=;b\n}[1]", "C{a=b,;c\nd=e}[1]", "C{a=b};c\n[1]", "C;{\n{a=b}", "C_7;[\n[1]", "_;\n", "{;\n", "{ ; }", "C{a= ;b\n=c}",
+		"C[1] \ufffd D[1]", "C\ufffd[1]", "\ufffd", "C_\ufffd[1]", "C{\ufffd=\ufffd}", "C[1] \u00ff D[1]",
 		"1[1]]", "C[1]\n", "C[1] x y z", "x/y[z]", "sus4_sus4", "A_7_9", "C_7;c\n_9", "C{a=b}_7", "C_7{a=b}", "R", "RR", "Rx", "xR", "CR", "é[1]", "C_é[1]", "C{é=ü}",
 	}
 }
